@@ -21,6 +21,7 @@ structure Fresh (n : Node) : Prop where
   pendL : n.chainL.pend = []
   pendR : n.chainR.pend = []
   height : n.chainL.tail.height = 0
+  heightR : n.chainR.tail.height = 0
 
 /-! ## the release rule (C06) -/
 
@@ -45,12 +46,6 @@ theorem never_broadcast_revoked (n0 : Node) (h0 : Fresh n0) (evs : List Ev) :
   · intro m hm
     obtain ⟨rfl, h1⟩ := hI.staged m hm
     rw [hI.disk]; show s.cur - 1 < s.cur; omega
-
-/-- the write happens before the message is returned: the step that hands out a revocation
-    (`emit`) never changes the durable state, and the revocation it hands out was staged by a step
-    that had already written the newer commitment. -/
-theorem emit_after_write (s : St) : s.emit.disk = s.disk := by
-  unfold St.emit; split <;> rfl
 
 /-- **secrets_follow_chain** (must, full strength).  In every run from a fresh channel:
     * every revoke_and_ack carries the commitment point of `secret height + 2`;
@@ -81,6 +76,73 @@ theorem secrets_follow_chain (n0 : Node) (h0 : Fresh n0) (evs : List Ev) :
   · intro m hm
     obtain ⟨rfl, h1⟩ := hI.staged m hm
     show s.cur + 1 = s.cur - 1 + 2; omega
+
+/-! ## rejecting a wrong secret (C06, reject half) -/
+
+/-- states reachable from a fresh channel by ANY events — API calls with any arguments, crashes,
+    and `ReceiveRevocation` of ARBITRARY messages under ANY verdict of the revocation store — where
+    the only restriction on the peer is `Admissible`: a message revealing the true secret of the
+    current remote height also carries the true next commitment point. -/
+inductive Reach (n0 : Node) : St → Prop
+  | init : Reach n0 (St.init n0)
+  | step {s : St} (ev : Ev) : Reach n0 s → Admissible s ev → Reach n0 (s.step ev)
+
+theorem reach_inv {n0 : Node} (h0 : Fresh n0) {s : St} (hr : Reach n0 s) : DiskInv s ∧ PointInv s := by
+  induction hr with
+  | init =>
+    refine ⟨diskInv_init n0 h0.pendR, ?_, ?_, ?_⟩
+    · intro c hc; simp [St.init, h0.pendR] at hc
+    · show Sec.ofHeight 0 = .ofHeight n0.chainR.tail.height
+      rw [h0.heightR]
+    · show Sec.ofHeight 1 = .ofHeight (n0.chainR.tail.height + 1)
+      rw [h0.heightR]
+  | step ev _ ha ih => exact ⟨diskInv_step ih.1 ev, pointInv_step ih.1 ih.2 ev ha⟩
+
+/-- **bogus_revocation_rejected** (must).  In every reachable state, a revoke_and_ack whose secret
+    is not the peer's producer secret of the current remote commitment height is rejected
+    WHATEVER the revocation store answers (in particular at store indexes without trailing zeros,
+    i.e. every even remote height, where `AddNextEntry` accepts any 32 bytes): if the store lets
+    it through, the commitment-point comparison `pub(secret) = RemoteCurrentRevocation` fails
+    ("revocation key mismatch").  Nothing changes: memory, the remote commitment / chain tail,
+    the revocation store size, the revocation log, the forwarding packages and every other
+    durable field stay as they were, so the true revocation is still accepted afterwards.
+    Rests on the invariant (proved here over all runs) that `RemoteCurrentRevocation` is the
+    producer's point of the remote tail height and `RemoteNextRevocation` the next one. -/
+theorem bogus_revocation_rejected (n0 : Node) (h0 : Fresh n0) (s : St) (hr : Reach n0 s)
+    (storeAccepts : Bool) (m : RevIn) (hm : m.secret ≠ .ofHeight s.disk.rc.cm.height) :
+    (s.receiveRevocationMsg storeAccepts m).2 = s ∧
+    (s.receiveRevocationMsg storeAccepts m).1 = (if storeAccepts then .keyMismatch else .storeReject) ∧
+    s.step (.recvRevMsg storeAccepts m) = s ∧
+    -- and the true revocation is (still) accepted by the point check:
+    (s.receiveRevocationMsg true ⟨.ofHeight s.disk.rc.cm.height, .ofHeight (s.disk.rc.cm.height + 2)⟩) =
+      (.done s.receiveRevocation.1, s.receiveRevocation.2) := by
+  obtain ⟨_, hP⟩ := reach_inv h0 hr
+  have hne : (m.secret != s.disk.rcur) = true := by
+    rw [hP.rcur]; simpa using hm
+  refine ⟨?_, ?_, ?_, ?_⟩
+  · unfold St.receiveRevocationMsg
+    cases storeAccepts <;> simp [hne]
+  · unfold St.receiveRevocationMsg
+    cases storeAccepts <;> simp [hne]
+  · simp only [St.step]
+    split
+    · rfl
+    · unfold St.receiveRevocationMsg
+      cases storeAccepts <;> simp [hne]
+  · unfold St.receiveRevocationMsg St.receiveRevocation
+    simp [hP.rcur]
+
+/-- the remote commitment advances only on the true secret: a `ReceiveRevocation` that changes the
+    durable remote commitment, the store size or the peer's commitment points revealed exactly
+    the producer's secret of the remote tail height. -/
+theorem remote_advances_only_on_true_secret (n0 : Node) (h0 : Fresh n0) (s : St) (hr : Reach n0 s)
+    (a : Bool) (m : RevIn) (hch : (s.step (.recvRevMsg a m)).disk.stored ≠ s.disk.stored) :
+    m.secret = .ofHeight s.disk.rc.cm.height := by
+  apply Classical.byContradiction
+  intro hm
+  have := (bogus_revocation_rejected n0 h0 s hr a m hm).2.2.1
+  rw [this] at hch
+  exact hch rfl
 
 /-! ## the durable commitments -/
 
@@ -218,22 +280,6 @@ theorem restore_is_signed_projection_partial (n0 : Node) (h0 : Fresh n0) (evs : 
   obtain ⟨h1, h2, h3, _, _⟩ := restore_commitments n0 h0 evs s' hc
   exact ⟨h3.symm, h1.symm, h2.symm⟩
 
-/-- the restored memory is a function of the durable state alone: crashing twice in a row gives
-    the same memory as crashing once. -/
-theorem restore_only_reads_disk (s s1 s2 : St) (h1 : s.crash = .ok s1) (h2 : s1.crash = .ok s2) :
-    s2.mem = s1.mem ∧ s2.disk = s.disk := by
-  unfold St.crash at h1
-  split at h1
-  · cases h1
-  · rename_i n hr
-    simp only [Except.ok.injEq] at h1
-    subst h1
-    have hcfg := (restore_chains hr).2.2
-    unfold St.crash at h2
-    simp only [hcfg, hr, Except.ok.injEq] at h2
-    subst h2
-    exact ⟨rfl, rfl⟩
-
 /-! ## totality of restore (partial) -/
 
 /-- **restore_total_partial**.  `restore` (NewLightningChannel) succeeds — no nil dereference of
@@ -251,8 +297,6 @@ theorem restore_only_reads_disk (s s1 s2 : St) (h1 : s.crash = .ok s1) (h2 : s1.
     the monitor clause `reload-error` checks the statement itself on the implementation. -/
 theorem restore_total_partial (cfg : Cfg) (d : Disk) (h : DiskWF d) : ∃ n, restore cfg d = .ok n :=
   restore_ok_of_wf cfg d h
-
-theorem diskWF_sound (d : Disk) (h : diskWF d = true) : DiskWF d := diskWF_spec d h
 
 /-! ## continuing after a restart (partial) -/
 
@@ -282,7 +326,7 @@ def demoCommit : Commit :=
 
 def demoNode : Node := { cfg := demoCfg, chainL := { tail := demoCommit }, chainR := { tail := demoCommit } }
 
-example : Fresh demoNode := ⟨rfl, rfl, rfl⟩
+example : Fresh demoNode := ⟨rfl, rfl, rfl, rfl⟩
 
 /-- a run with a received HTLC, a revocation handed out, a crash with a staged revocation and a
     chan-sync retransmission: the history is `[revoke 0, lost 1, sync 1]`-shaped. -/
